@@ -28,7 +28,7 @@ MECHANISMS = [
 MECHANISMS_REQUIRED = ["jaxley.utils.cell_utils:compute_coupling_cond",
                        "jaxley.utils.cell_utils:convert_point_process_to_distributed"]
 REQUIRED = {"quick": {"charge": 100, "uniform": 100, "maxprinciple": 50, "reciprocity": 100},
-            "thorough": {"charge": 500, "uniform": 500, "maxprinciple": 250, "reciprocity": 500}}
+            "thorough": {"charge": 1838, "uniform": 1432, "maxprinciple": 693, "reciprocity": 1610}}
 WALL_BUDGET = {"quick": 1500, "thorough": 4 * 3600}
 TOL = 1e-8
 
